@@ -117,6 +117,75 @@ def patched(name, when):
     return cm()
 
 
+class _H5Proxy:
+    """Stands in for the module `h5py` inside cooler.create._create: every File(...) is counted first."""
+
+    def __init__(self, real, on_open):
+        self._real, self._on_open = real, on_open
+
+    def __getattr__(self, name):
+        return getattr(self._real, name)
+
+    def File(self, *a, **k):
+        self._on_open()
+        return self._real.File(*a, **k)
+
+
+def die_at_open(j, save):
+    """PROCESS DEATH: the process ends (os._exit: no exception handler, no `finally`, no atexit, no HDF5 shutdown) right before
+    the j-th time the writer opens a file.  create() opens and closes the file once per step, so every one of these points has
+    the file closed - the state on disk is what the previous step left.  Only used inside a forked child (in_child)."""
+    import h5py
+    import cooler.create._create as cc
+    count = {"n": 0}
+
+    def on_open():
+        count["n"] += 1
+        if count["n"] == j:
+            save()
+            os._exit(9)
+    cc.h5py = _H5Proxy(h5py, on_open)
+    return count
+
+
+def in_child(body, side):
+    """Run body(save) in a forked child.  body returns a JSON-able result; save(obj) stores a partial result in the side file
+    (the child may die right afterwards).  Returns ("ok", result) or ("killed", last saved partial result)."""
+    import json
+    import traceback
+    from ..tlc import MachineryError
+
+    def save(obj):
+        with open(side + ".tmp", "w") as f:
+            json.dump(obj, f)
+            f.flush()
+            os.fsync(f.fileno())
+        os.replace(side + ".tmp", side)
+    pid = os.fork()
+    if pid == 0:
+        code = 0
+        try:
+            import signal
+            signal.alarm(0)
+            save({"done": True, "res": body(save)})
+        except BaseException:
+            code = 3
+            try:
+                save({"failed": traceback.format_exc()})
+            except BaseException:
+                pass
+        os._exit(code)          # never return into the worker's stack (nor run its atexit handlers)
+    _, st = os.waitpid(pid, 0)
+    code = os.waitstatus_to_exitcode(st)
+    with open(side) as f:
+        got = json.load(f)
+    if code == 9:
+        return "killed", got
+    if code == 0 and got.get("done"):
+        return "ok", got["res"]
+    raise MachineryError(f"child of a process-death case ended with status {code}: {got.get('failed', got)}")
+
+
 CRASHES = {"crash_indexes": ("write_indexes", "before"), "crash_info": ("write_info", "before"),
            "crash_tables": ("write_bins", "before"), "crash_after_tables": ("prepare_pixels", "after")}
 
@@ -141,17 +210,35 @@ def cr_steps(case, ctx):
         kw = {}
         if kind == "bad_metadata":
             kw["metadata"] = {"n_reads": np.int64(123456), "ok": [1, 2]}        # not JSON-serialisable
-        try:
-            with cm:
-                cooler.create_cooler(uri, gen.bins_frame(table), feeder, ordered=True,
-                                     symmetric_upper=call["symm"], mode=call["mode"], **kw)
-            outcome, err = "ok", ""
-        except Exception as ex:
-            outcome, err = "error", type(ex).__name__
+        opens = 0
+        if kind == "kill":
+            def body(save, call=call, uri=uri, table=table, feeder=feeder, points=points):
+                count = die_at_open(call["fault"]["at"], lambda: save({"points": points}))
+                try:
+                    cooler.create_cooler(uri, gen.bins_frame(table), feeder, ordered=True,
+                                         symmetric_upper=call["symm"], mode=call["mode"])
+                    res = ["ok", ""]
+                except Exception as ex:
+                    res = ["error", type(ex).__name__]
+                return {"points": points, "res": res, "opens": count["n"]}
+            status, got = in_child(body, os.path.join(d, "side.json"))
+            points = got["points"]
+            if status == "killed":
+                outcome, err, opens = "killed", "", call["fault"]["at"]
+            else:
+                (outcome, err), opens = got["res"], got["opens"]
+        else:
+            try:
+                with cm:
+                    cooler.create_cooler(uri, gen.bins_frame(table), feeder, ordered=True,
+                                         symmetric_upper=call["symm"], mode=call["mode"], **kw)
+                outcome, err = "ok", ""
+            except Exception as ex:
+                outcome, err = "error", type(ex).__name__
         pt = observe(fp, paths, call["dest"])
         pt.update({"at": "end", "outcome": outcome, "err": err, "k": -1})
         points.append(pt)
-        out.append({"points": points})
+        out.append({"points": points, "opens": opens})
     return {"calls": out}
 
 
@@ -212,30 +299,47 @@ def cr_producer(case, ctx):
         cooler.create_cooler(src, bins, gen.pixels_frame(rows), ordered=True, symmetric_upper=symm,
                              boundscheck=False, triucheck=False, dupcheck=False)
         FIRED.append("invalid_source")
-    try:
-        with stack:
-            prod = case["producer"]
-            if prod == "merge":
-                cooler.merge_coolers(uri, [src, src2], mergebuf=case["buf"], mode="a")
-            elif prod == "coarsen":
-                cooler.coarsen_cooler(src, uri, case["k"], chunksize=case["buf"], nproc=1)
-            elif prod == "unordered":
-                rows = case["px"]
-                half = len(rows) // 2
-                chunks = [gen.pixels_frame(rows[:half]), gen.pixels_frame(rows[half:]), gen.pixels_frame(case["px2"])]
-                if fault["kind"] == "invalid":
-                    FIRED.append("invalid")
-                    bad = gen.pixels_frame([[len(table), 0, 1]] if not symm else [[1, 0, 1]])
-                    chunks.insert(fault["at"], bad)
-                tmpd = os.path.join(d, "tmp")
-                os.makedirs(tmpd, exist_ok=True)
-                cooler.create_cooler(uri, bins, iter(chunks), ordered=False, symmetric_upper=symm, mode="a",
-                                     mergebuf=case["buf"], temp_dir=tmpd)
-            else:
-                raise ValueError(prod)
-        outcome = "ok"
-    except Exception as ex:
-        outcome = "error"
+    def produce():
+        prod = case["producer"]
+        if prod == "merge":
+            cooler.merge_coolers(uri, [src, src2], mergebuf=case["buf"], mode="a")
+        elif prod == "coarsen":
+            cooler.coarsen_cooler(src, uri, case["k"], chunksize=case["buf"], nproc=1)
+        elif prod == "unordered":
+            rows = case["px"]
+            half = len(rows) // 2
+            chunks = [gen.pixels_frame(rows[:half]), gen.pixels_frame(rows[half:]), gen.pixels_frame(case["px2"])]
+            if fault["kind"] == "invalid":
+                FIRED.append("invalid")
+                bad = gen.pixels_frame([[len(table), 0, 1]] if not symm else [[1, 0, 1]])
+                chunks.insert(fault["at"], bad)
+            tmpd = os.path.join(d, "tmp")
+            os.makedirs(tmpd, exist_ok=True)
+            cooler.create_cooler(uri, bins, iter(chunks), ordered=False, symmetric_upper=symm, mode="a",
+                                 mergebuf=case["buf"], temp_dir=tmpd)
+        else:
+            raise ValueError(prod)
+
+    if fault["kind"] == "kill":
+        # process death right before the writer opens a file for the (at+1)-th time (destination or temporary file)
+        def body(save):
+            die_at_open(fault["at"] + 1, lambda: save({}))
+            try:
+                produce()
+                return "ok"
+            except Exception:
+                return "error"
+        status, got = in_child(body, os.path.join(d, "side.json"))
+        outcome = "killed" if status == "killed" else got
+        if status == "killed":
+            FIRED.append("kill")
+    else:
+        try:
+            with stack:
+                produce()
+            outcome = "ok"
+        except Exception as ex:
+            outcome = "error"
     o = observe(fp, paths, dest)
     return {"before": before, "after": o["file"], "outcome": outcome, "is_cooler": o["is_cooler"],
             "is_cooler_raised": o["is_cooler_raised"], "listing": o["listing"], "fired": bool(FIRED)}
